@@ -137,13 +137,13 @@ def dynamic(cx, meta, targets, boost_deferred=False):
 
 def hid_of(l):
     p = l.split()
-    return p[1] if len(p) > 1 and p[0] in ("H", "O", "P", "N", "U", "X", "E", "S", "T", "G") else None
+    return p[1] if len(p) > 1 and p[0] in ("H", "O", "P", "N", "U", "X", "E", "S", "T", "G", "Q") else None
 
 
 def run_histories(cx, H, exe, hists):
     t0 = time.time()
     out, crashes = vp.run_cases(exe, hists, lambda l: l.split()[1] if l.startswith("H ") else None,
-                                lambda l: hid_of(l) if l[:2] in ("O ", "N ", "U ", "X ", "P ", "T ") else None, timeout=1500)
+                                lambda l: hid_of(l) if l[:2] in ("O ", "N ", "U ", "X ", "P ", "T ", "Q ", "G ") else None, timeout=1500)
     for cl, rc, err in crashes:
         cx.violation("history-crash", "the library crashed or hung (rc=%s) on a history of public value operations: %s" % (rc, err[-300:]),
                      {"history": cl})
@@ -199,7 +199,7 @@ def deferred(cx, H, exe, boost=False):
     for mode in ("lazy0", "eager"):
         lines = [H.line(k + 1, mode, ops) for k, ops in enumerate(cases)]
         out, crashes = vp.run_cases(exe, lines, lambda l: l.split()[1] if l.startswith("H ") else None,
-                                    lambda l: hid_of(l) if l[:2] in ("O ", "N ", "U ", "X ", "P ", "G ") else None, timeout=1500)
+                                    lambda l: hid_of(l) if l[:2] in ("O ", "N ", "U ", "X ", "P ", "G ", "Q ") else None, timeout=1500)
         for cl, rc, err in crashes:
             cx.violation("history-crash", "the library crashed or hung (rc=%s) on a history of lazy CSG value operations (%s): %s" % (rc, mode, err[-300:]),
                          {"history": cl})
